@@ -701,3 +701,21 @@ def _h_fftn(name2):
 
 HANDLERS['numpy.fft.fftn'] = _h_fftn('fft.fft2')
 HANDLERS['numpy.fft.ifftn'] = _h_fftn('fft.ifft2')
+
+
+def _h_atleast(n):
+    """np.atleast_1d(x): x itself when x has at least that many axes (or nothing is known about them); a scalar known to
+    be 0-d becomes x[..., newaxis]"""
+    def h(ip, st, args, kw, node):
+        x = args[0]
+        try:
+            nd = ip.apply_facts(nf.attr(P(x), 'ndim'))
+        except Exception:
+            nd = None
+        if n == 1 and isinstance(nd, Poly) and nd.const_value() == 0 and isinstance(x, Poly):
+            return nf.index(x, Tup([nf.ELLIPSIS, NONE]))
+        return x
+    return h
+
+
+HANDLERS['numpy.atleast_1d'] = _h_atleast(1)
